@@ -18,8 +18,9 @@ type SExpr struct {
 	Name string
 	Args []*SExpr
 	// quant
-	Vars  []string
-	VType string
+	Vars   []string
+	VTypes []string
+	VType  string
 	Pos   string
 	Lit   string
 }
@@ -173,20 +174,34 @@ func (p *specParser) expr() *SExpr {
 		p.next()
 		q := &SExpr{Kind: "quant", Op: t.text}
 		for {
-			id := p.next()
-			if id.kind != "id" {
-				p.fail("quantifier variable expected")
+			// a group: names, then a type
+			var names []string
+			for {
+				id := p.next()
+				if id.kind != "id" {
+					p.fail("quantifier variable expected")
+				}
+				names = append(names, id.text)
+				if p.peek().kind == "id" {
+					break
+				}
+				if !p.accept(",") {
+					p.fail("quantifier type expected")
+				}
 			}
-			q.Vars = append(q.Vars, id.text)
+			ty := p.next()
+			if ty.kind != "id" {
+				p.fail("quantifier type expected")
+			}
+			for _, n := range names {
+				q.Vars = append(q.Vars, n)
+				q.VTypes = append(q.VTypes, ty.text)
+			}
+			q.VType = ty.text
 			if !p.accept(",") {
 				break
 			}
 		}
-		ty := p.next()
-		if ty.kind != "id" {
-			p.fail("quantifier type expected")
-		}
-		q.VType = ty.text
 		p.expect("::")
 		q.Args = []*SExpr{p.expr()}
 		return q
